@@ -141,6 +141,7 @@ def check(case, mon, ctx):
     with contextlib.redirect_stdout(io.StringIO()):
         out = Hh.assign_lines_to_regions([b.copy() for b in bls], hs, [t.copy() for t in tls], regs)
     mon.count('helper_calls')
+    mon.observe('placed lines', [(r.id, l.id, np.round(np.asarray(l.baseline, dtype=np.float64), 4).tolist()) for r in out for l in r.lines])
     ids = [l.id for r in out for l in r.lines]
     if len(ids) != len(set(ids)):
         mon.violation('line-ids-distinct', {'ids': ids})
